@@ -182,6 +182,11 @@ func (r *Reconciler) Reconcile(ctx context.Context, request reconcile.Request) (
 
 func (r *Reconciler) buildStrategyParams(logger logr.Logger, daemonset *datadoghqv1alpha1.ExtendedDaemonSet, replicaset *datadoghqv1alpha1.ExtendedDaemonSetReplicaSet) (*strategy.Parameters, error) {
 	rsStatus := retrieveReplicaSetStatus(daemonset, replicaset.Name)
+	if rsStatus == strategy.ReplicaSetStatusCanary && daemonset.Spec.Strategy.Canary == nil {
+		// the canary strategy was removed from the spec while the canary was running and the ExtendedDaemonSet
+		// status has not been updated yet: there is no canary to manage (and no canary settings to read)
+		rsStatus = strategy.ReplicaSetStatusUnknown
+	}
 
 	// Retrieve the Node associated to the replicaset (with node selector)
 	nodeList, podList, err := r.getPodAndNodeList(logger, daemonset, replicaset)
